@@ -283,6 +283,32 @@ func (c *ctx) argOps() {
 			c.h.stats["arg"]++
 		}
 	}
+	// the same rejected call before and after the type has been used (and cached) by valid calls
+	c.h.emit("arg decstruct -> " + decStructByValue())
+	safely(func() string {
+		frugal.EncodedSize(argS2{})
+		b := make([]byte, 16)
+		frugal.EncodeObject(b, nil, &argS2{B: 1})
+		frugal.DecodeObject([]byte{0}, &argS2{})
+		return ""
+	})
+	c.h.emit("arg decstruct -> " + decStructByValue())
+	c.h.stats["arg"] += 2
+}
+
+type argS2 struct {
+	B int64 `frugal:"1,default,i64"`
+}
+
+// decStructByValue: DecodeObject given a struct by value (not a pointer): rejected with an error
+func decStructByValue() string {
+	return safely(func() string {
+		n, err := frugal.DecodeObject([]byte{0}, argS2{})
+		if err != nil {
+			return "err"
+		}
+		return "ok:" + strconv.Itoa(n)
+	})
 }
 
 // ---- C17 ----
